@@ -627,7 +627,7 @@ func p11RunC11Asm(args []string) error {
 		}
 		// the assembler's Prog boundaries are the machine code's instruction boundaries
 		o.emit("accept-decode "+decodeOK+" "+e.String(), "ok")
-		o.emit("accept-asm "+e.String()+" "+a.String(), "ok")
+		o.emit("accept-asm "+e.String()+" "+hexs(text)+" "+a.String(), "ok")
 		if os.Getenv("AVOH_KEEP") == "" {
 			os.Remove(opath)
 			os.Remove(spath)
